@@ -205,6 +205,35 @@ where
             return rep.fail(ck, "honest-issuance-proof-rejected-after-a-refusal", format!("after a refused request ({}: {:?}) the honest proof for hidden set {:?} of {} no longer verifies on the same thread", tag, hl, hidden, n), cj(json!({"after": tag})));
         }
     }
+    // single-field edits of the key material the issuer checks against: the issuer modulus, b, the base of every
+    // hidden position; with a trusted commitment also the trusted party's modulus, h and the g_i of hidden positions
+    {
+        let sq = |x: &Integer, m: &Integer| (x * x).complete() % m;
+        let mut k1 = key.clone();
+        k1.pk.N = (&k1.pk.N + 2u32).complete();
+        gate("issuer-key-field-changed:N", &zk, &c_issuer, t_issuer.as_ref(), &k1, &bases, cpk, &hidden, "N + 2".into())?;
+        let mut k2 = key.clone();
+        k2.pk.b = sq(&k2.pk.b, &k2.pk.N);
+        gate("issuer-key-field-changed:b", &zk, &c_issuer, t_issuer.as_ref(), &k2, &bases, cpk, &hidden, "b := b^2".into())?;
+        for &i in &hidden {
+            let mut b3 = bases.clone();
+            b3.0[i] = sq(&b3.0[i], &pk.N);
+            gate("base-changed", &zk, &c_issuer, t_issuer.as_ref(), key, &b3, cpk, &hidden, format!("a_{} := a_{}^2", i, i))?;
+        }
+        if let (true, Some(t)) = (use_tp, tp) {
+            let mut t1 = t.clone();
+            t1.N = (&t1.N + 2u32).complete();
+            gate("trusted-commitment-key-field-changed:N", &zk, &c_issuer, t_issuer.as_ref(), key, &bases, Some(&t1), &hidden, "N + 2".into())?;
+            let mut t2 = t.clone();
+            t2.h = sq(&t2.h, &t2.N);
+            gate("trusted-commitment-key-field-changed:h", &zk, &c_issuer, t_issuer.as_ref(), key, &bases, Some(&t2), &hidden, "h := h^2".into())?;
+            for &i in &hidden {
+                let mut t3 = t.clone();
+                t3.g_bases[i] = sq(&t3.g_bases[i], &t3.N);
+                gate("trusted-commitment-key-field-changed:g_i", &zk, &c_issuer, t_issuer.as_ref(), key, &bases, Some(&t3), &hidden, format!("g_{} := g_{}^2", i, i))?;
+            }
+        }
+    }
     // other bases / other issuer key
     {
         let ob = Bases::generate(pk, n);
@@ -363,7 +392,7 @@ pub fn run(ctx: &Ctx, rep: &Report) -> Meta {
     par_items(ctx, rep, "attribute-count-sweep", &sweep, |c| with_cl!(suite, CS => check_one::<CS>(rep, "attribute-count-sweep", c, &cx)));
     // volume: many honest issuance proofs of the cheapest shape (one attribute, hidden), each verified
     {
-        let total = ctx.tier.pick(1000usize, 8000usize);
+        let total = ctx.tier.pick(1400usize, 10000usize);
         let ws: Vec<usize> = (0..16).collect();
         par_items(ctx, rep, "volume", &ws, |&w| {
             with_cl!(suite, CS => {
@@ -371,6 +400,8 @@ pub fn run(ctx: &Ctx, rep: &Report) -> Meta {
                 let pk = &key.pk;
                 let bases = Bases::generate(pk, 1);
                 let hidden = [0usize];
+                // odd workers: with a trusted-party commitment (its sub-proof has a challenge of its own)
+                let tpk = if w % 2 == 1 { cx.tp.as_ref() } else { None };
                 let mut st = ctx.seed ^ ((w as u64) << 32) | 3;
                 for k in 0..total / 16 {
                     if rep.aborted() {
@@ -378,6 +409,21 @@ pub fn run(ctx: &Ctx, rep: &Report) -> Meta {
                     }
                     let msgs = vec![CL03Message::new(if k % 5 == 0 { attr(k as u8, &mut st) } else { attr_random(&mut st) })];
                     let com = Commitment::<CL03<CS>>::commit_with_pk(&msgs, pk, &bases, Some(&hidden));
+                    if let Some(t) = tpk {
+                        let tcom = Commitment::<CL03<CS>>::commit_with_commitment_pk(&msgs, t, Some(&hidden)).cl03Commitment().clone();
+                        let zk = match catch(|| ZKPoK::<CL03<CS>>::generate_proof(&msgs, com.cl03Commitment(), Some(&tcom), pk, &bases, Some(t), &hidden)) {
+                            Ok(z) => z,
+                            Err(e) => return rep.fail("volume", "generate-proof-panicked", format!("#{} of worker {} (trusted commitment): {}", k, w, e), json!({"worker": w})),
+                        };
+                        let c_issuer = CL03Commitment { value: com.cl03Commitment().value.clone(), randomness: Integer::new() };
+                        let t_issuer = CL03Commitment { value: tcom.value.clone(), randomness: Integer::new() };
+                        rep.eval("volume", 1);
+                        if !catch(|| zk.verify_proof(&c_issuer, Some(&t_issuer), pk, &bases, Some(t), &hidden)).unwrap_or(false) {
+                            return rep.fail("volume", "honest-issuance-proof-rejected", format!("honest issuance proof #{} of worker {} (one hidden attribute, trusted commitment) is refused", k, w),
+                                json!({"volume-trusted": {"proof": serde_json::to_value(&zk).unwrap_or(json!(null)), "commitment": c_issuer.value.to_string(), "trusted_commitment": t_issuer.value.to_string()}}));
+                        }
+                        continue;
+                    }
                     let zk = match catch(|| ZKPoK::<CL03<CS>>::generate_proof(&msgs, com.cl03Commitment(), None, pk, &bases, None, &hidden)) {
                         Ok(z) => z,
                         Err(e) => return rep.fail("volume", "generate-proof-panicked", format!("#{} of worker {}: {}", k, w, e), json!({"worker": w})),
@@ -410,9 +456,9 @@ pub fn run(ctx: &Ctx, rep: &Report) -> Meta {
     Meta {
         rule: "issuer key from a pool, n attributes, EVERY non-empty hidden set for n = 1..3 (quick) / 1..5 (thorough) plus generated (n <= 4/5, hidden set, attribute classes), with and without a trusted-party commitment (commitment key over its own modulus); \
                positive: verify_proof true (the issuer is given the commitment value only), proof survives JSON, blind_sign returns, the unblinded signature verifies on the full vector, re-issuing with a changed revealed attribute verifies on the new vector and not on the old; \
-               negative: commitment to other attributes / C*b, another hidden set of the same size, hidden-position lists reaching beyond the attribute count (each refusal followed by a re-verification of the honest proof on the same thread), other bases, other issuer key, wrong trusted commitment: verify_proof false AND blind_sign refuses; \
+               negative: commitment to other attributes / C*b, single-field edits of the key material (issuer N + 2, b squared, the base of every hidden position squared; with a trusted commitment its N + 2, h and the g_i of hidden positions squared), another hidden set of the same size, hidden-position lists reaching beyond the attribute count (each refusal followed by a re-verification of the honest proof on the same thread), other bases, other issuer key, wrong trusted commitment: verify_proof false AND blind_sign refuses; \
                every integer leaf of the serialised proof perturbed by +1, -1, := 0, := sibling, one high bit flipped, +2^k for k in {128, 160, 256, 300} (16-24 sampled perturbations per proof in quick, all in thorough's fixed list): verify_proof false; every composite node of the serialised proof (sub-proof, array, array element) replaced by the node at the same path of a second honest proof for other hidden values (same key, bases, positions), for every second case: verify_proof false; \
-               n = 6 and 8 with first / last / all / alternating hidden sets; every attribute count 9..=24 (quick) / 9..=48 (thorough) with two or three hidden positions including the last; volume: 1000 (quick) / 8000 (thorough) honest one-attribute issuance proofs each verified; issuers with 0..3 more bases than attributes; every second case with two or more hidden attributes gives them all the same value; a proof without the trusted-party sub-proof presented to an issuer that requires one, a sub-proof checked against another commitment key; non-trivial = hidden set != {0} (the crate's only tested configuration); evaluations = verifier / issuer decisions"
+               n = 6 and 8 with first / last / all / alternating hidden sets; every attribute count 9..=24 (quick) / 9..=48 (thorough) with two or three hidden positions including the last; volume: 1400 (quick) / 10000 (thorough) honest one-attribute issuance proofs each verified, half of them with a trusted-party commitment; issuers with 0..3 more bases than attributes; every second case with two or more hidden attributes gives them all the same value; a proof without the trusted-party sub-proof presented to an issuer that requires one, a sub-proof checked against another commitment key; non-trivial = hidden set != {0} (the crate's only tested configuration); evaluations = verifier / issuer decisions"
             .into(),
         assumptions: vec!["blind_sign refuses by panicking (by design): observed under catch_unwind".into(), "CL2048/CL3072 in thorough only (fixture primes)".into()],
     }
